@@ -69,6 +69,11 @@ def make_market_class():
         def set_type(self):
             self.action_type = ActionTypeEnum.general_swap
 
+    # Actuator.save_result pickles the action list (the handler of a RuntimeError that leaves the bar loop calls it): the class must be
+    # importable by name
+    ProbeAction.__qualname__ = "ProbeAction"
+    globals()["ProbeAction"] = ProbeAction
+
     class ProbeMarket(Market):
         """the Market base class with the least a concrete market must add: a data frame with one column `x`
         (= model time of the row, so the row a status was read from is identifiable), one gated operation, an update
@@ -155,6 +160,23 @@ def make_market_class():
             self._record_action(a)
 
     return ProbeMarket
+
+
+class HookError(Exception):
+    """an exception class of the strategy's own, not a RuntimeError"""
+
+
+class HookRuntimeError(RuntimeError):
+    """a RuntimeError subclass raised by a hook (DemeterError is one too)"""
+
+
+def hook_exception(name):
+    """the exception a scripted hook raises: by class name"""
+    if name == "DemeterError":
+        from demeter._typing import DemeterError
+        return DemeterError("raised by a hook")
+    return {"HookError": HookError, "HookRuntimeError": HookRuntimeError, "ValueError": ValueError, "KeyError": KeyError,
+            "IndexError": IndexError, "TypeError": TypeError}[name]("raised by a hook")
 
 
 class Recorder:
